@@ -8,6 +8,15 @@ CHECKS = {
  "C01": dict(cat="model_checking", tech="bounded exhaustive exploration of writer programs (stateless model checking of the real writer/reader against a reference model)",
     text="Every valid writer program of the bounded families (all single-piece sizes over every residue of the cipher buffer/chunk/block, two-piece and interleaved sweeps, the complete tree of programs with <=3 files/<=7 ops, names, recipients) x 4 layer combinations x levels is executed on the real ArchiveWriter, read back with the real ArchiveReader and compared with a reference map name->bytes (listing, content, size, SHA-256). Exhaustive within the stated bounds on scaled layer constants, plus a production-constant boundary tier.",
     note="Layer size constants scaled through cfg(mla_verif) (relations between constants preserved); contents from three deterministic generators; brotli/aes/x25519 crates trusted.", ref="3/C01"),
+ "C02": dict(cat="fault_enumeration", tech="exhaustive crash-point enumeration: every prefix of every base archive is repaired by the real code and checked against the original files",
+    text="For ~460 base archives built by the real writer (single pieces over a whole period of chunk+tag so every final-chunk length occurs, 9 structurally rich interleaved programs) x 4 layer combinations x brotli levels x both repair modes, EVERY prefix length 0..len is given to the real repair; its output is re-opened with the normal reader and checked: no panic/hang, error only while the header is incomplete, each file a prefix of the original, files not reported unfinished identical, end-of-data status only when complete. Production-constant tier: every length in windows around header end, chunk edges, tag starts, end.",
+    note="Scaled constants via cfg(mla_verif) for the exhaustive part; production tier is windowed; encrypted bases use fresh random keys (verdict depends on plaintext only).", ref="3/C02"),
+ "C05": dict(cat="fault_enumeration", tech="exhaustive crash-point enumeration with monotonicity and reference-layout lower-bound oracles",
+    text="The prefix sweep of C02 evaluated with: undamaged archive fully recovered with status EndOfOriginalArchiveData; r(n) <= r(n+1) for every adjacent pair of prefix lengths (implies all pairs); without compression, recovered bytes >= bytes present in the usable part of the stream computed from an independent block-stream layout (complete chunks only in authenticated mode). Plus ~6000 undamaged archives (all single-piece sizes x 3 entropies x levels, interleavings, program tree, many small entries) repaired at full length.",
+    note="Scaled constants; production tier: windows plus a few undamaged archives of 4 MiB +- 1.", ref="3/C05"),
+ "C14": dict(cat="fault_enumeration", tech="crash-point enumeration at flush boundaries over all programs of a bounded tree",
+    text="Every program of a bounded family with a flush() inserted at every position (pairs in thorough) x 4 layer combos x levels {0,5,11} x 3 entropies is run on the real writer over a sink that records its length when flush returns; exactly those bytes are repaired (both modes when encrypted). Oracle: output sound and every file has at least the bytes appended before the flush (or, authenticated mode, at least what independent reference decoders extract from completed chunks).",
+    note="Scaled constants; reference compressed stream for layers=both/authenticated comes from the compress-only run of the same program.", ref="3/C14"),
 }
 
 def main():
